@@ -349,3 +349,20 @@ Fixpoint safe_run (s : state) (ops : list op) : Prop :=
 Definition alive (t : tracker) : bool := match t_proxy t with Some _ => true | None => false end.
 Definition quiescent (s : state) : Prop := ch_oh s = [] /\ ch_ho s = [] /\ h_pend (hd s) = [].
 Definition no_proxy (s : state) : Prop := Forall (fun t => t_proxy t = None) (h_trk (hd s)).
+
+(* ---------------------------------------------------------------- several connections (C08, reconnection)
+   A clid is meaningful only in the export table of the connection on which it was allocated (clids restart at
+   first_clid on every connection).  YourReferenceSlicer.slice decides between a bare `your-reference <clid>` and a gift
+   `their-reference <giftID> <furl>` (resolved through the owning Tub's name table, not modelled further); WHICH test it
+   uses is read from the source (yourref_homekey). *)
+Record conn := { conn_id : Z; conn_peer : Z }.          (* a Broker: its identity, and the Tub at the other end *)
+Inductive wire := WYourRef (c : Z) | WTheirRef (furl : Z).
+
+Definition goes_home (k : homekey) (proxy_conn out_conn : conn) : bool :=
+  match k with
+  | HomeSameConnection => conn_id proxy_conn =? conn_id out_conn
+  | HomeSamePeerTub => conn_peer proxy_conn =? conn_peer out_conn
+  end.
+
+Definition slice_proxy (proxy_conn out_conn : conn) (clid furl : Z) : wire :=
+  if goes_home yourref_homekey proxy_conn out_conn then WYourRef clid else WTheirRef furl.
